@@ -149,17 +149,46 @@ def run(ck):
     try:
         picked = [r for r in recs if r["prog"].get("tag", "").startswith("generated")]
         rng.shuffle(picked)
+        def zero_atoms(v):
+            """the argument value with every integer 0 replaced by the one-byte atom 0x00 (non-empty, zero-valued)"""
+            if isinstance(v, tuple) and v != ():
+                return (zero_atoms(v[0]), zero_atoms(v[1]))
+            return b"\x00" if (isinstance(v, int) and not isinstance(v, bool) and v == 0) else v
+        # programs whose result hangs on the truth of an argument, given zero-valued non-empty atoms: the debugger runs
+        # them after compiling the source in the same thread (history matters for the integer mode)
+        cli_jobs = []
+        for sig in ("*standard-cl-21*", "*standard-cl-22*", "*standard-cl-23*", "*standard-cl-24*", ""):
+            inc = ("(include %s) " % sig) if sig else ""
+            for body, args in (("(defun pick (F A B) (if F A B)) (pick FLAG A B)", "(x00 (x0b (x16 x)))"), ("(if FLAG A B)", "(x0000 (x0b (x16 x)))"),
+                               ("(defun-inline pick (F A B) (i F A B)) (pick (r FLAG) A B)", "((x01 x00) (x0b (x16 x)))")):
+                cli_jobs.append(("(mod (FLAG A B) %s%s)" % (inc, body), None, args, "truth_of_zero_atom" if sig else "classic"))
         for r in picked[:8 if ck.tier == "quick" else 80]:
             for d in ("cl21", "cl23", "cl24"):
                 b = r["builds"].get((d, True))
                 if not b or b.get("compile") != "OK" or b["known"]:
                     continue
+                cli_jobs.append((b["src"], b["code"], r["args_clvm"][0], d))
+                cli_jobs.append((b["src"], b["code"], srcgen.to_clvm(zero_atoms(r["args"][0])), d))
+                break
+        for jsrc, jcode, jargs, d in cli_jobs:
+            for _once in (1,):
+                b = {"src": jsrc, "code": jcode}
+                if jcode is None:
+                    cr = vlib.impl(["compile\t1\t\t" + jsrc.encode().hex()], timeout_line=60)[0]
+                    if not cr.startswith("OK "):
+                        continue
+                    b["code"] = cr[3:].split("\t")[0]
                 src = os.path.join(work, "p.clsp")
                 open(src, "w").write(b["src"])
-                argtxt = subprocess.run([vlib.HARNESS_BIN, "batch"], input="disassemble\t-\t%s\n" % r["args_clvm"][0], capture_output=True, text=True).stdout.strip()
-                argtxt = bytes.fromhex(argtxt[3:]).decode()
+                def val_text(v):
+                    # every atom as a hex literal (the classic disassembler would print head atoms as operator names)
+                    if isinstance(v, (bytes, bytearray)):
+                        return ("0x" + bytes(v).hex()) if v else "()"
+                    return "(%s . %s)" % (val_text(v[0]), val_text(v[1]))
+                argtxt = val_text(vlib.parse_val(jargs))
                 hexprog = vlib.impl(["ser\t" + b["code"]])[0][3:]
-                hexargs = vlib.impl(["ser\t" + r["args_clvm"][0]])[0][3:]
+                hexargs = vlib.impl(["ser\t" + jargs])[0][3:]
+                consensus = vlib.impl(["run\t2\t%s\t%s" % (b["code"], jargs)], timeout_line=60)[0]
                 for view in ([], ["-t"]):
                     o_src = subprocess.run([vlib.HARNESS_BIN, "tool", "cldb", "-O"] + view + [src, argtxt], cwd=work, capture_output=True, text=True, timeout=300).stdout
                     o_hex = subprocess.run([vlib.HARNESS_BIN, "tool", "cldb", "-x"] + view + [hexprog, hexargs], cwd=work, capture_output=True, text=True, timeout=300).stdout
@@ -181,12 +210,22 @@ def run(ck):
                         vals = vlib.impl(["parse_modern\t1\t" + k[1].encode().hex() for k in keep if k[0] not in ("Failure:",)], timeout_line=60)
                         it = iter(vals)
                         return [(k[0], next(it)) if k[0] != "Failure:" else (k[0], "") for k in keep]
-                    if essence(o_src) != essence(o_hex):
+                    es_ = essence(o_src)
+                    fin = [k for k in es_ if k[0] in ("Final:", "Failure:", "Throw:")][-1:]
+                    if consensus.startswith("OK ") and fin and fin[0][0] == "Final:":
+                        fv = fin[0][1]
+                        if fv != consensus:
+                            direct.append({"clause": "the debugger's final value for a source program differs from the consensus result", "dialect": d, "view": view or ["plain"],
+                                           "source": b["src"], "args": argtxt, "debugger_final": fv, "consensus": consensus})
+                    elif consensus.startswith("OK ") and fin:
+                        direct.append({"clause": "the debugger ends in a failure where the consensus evaluator returns", "dialect": d, "view": view or ["plain"], "source": b["src"], "args": argtxt,
+                                       "debugger": fin, "consensus": consensus})
+                    # (the debugger compiles a classic source with its own options: only sigil programs are claimed equal, C11)
+                    if d != "classic" and essence(o_src) != essence(o_hex):
                         es, eh = essence(o_src), essence(o_hex)
                         k = next((i for i in range(min(len(es), len(eh))) if es[i] != eh[i]), min(len(es), len(eh)))
                         direct.append({"clause": "a hex-supplied program does not produce the trace of its source form", "dialect": d, "view": view or ["plain"], "source": b["src"], "args": argtxt,
                                        "first_difference": [es[k:k + 2], eh[k:k + 2]]})
-                break
     finally:
         shutil.rmtree(work, ignore_errors=True)
     ck.cov["evaluations"] = 4 * len(cases) + len(rowcheck) + len(evl) + ncli
